@@ -13,9 +13,13 @@ package main
 //             sched@k (k-th NewRPSSchedule call, 1-based) | panic@k (k-th Shoot, 1-based)
 //   cancel  : none | pre | warm | bind | shot<k> | drain | after   (hook inside pool K's mock, default p0)
 //   slow    : prov | agg | shot  (that component ignores its context for slowDelay after the cancel)
-//   ek      : plain (default) | dl  (optional token; dl: every error the mocks of this pool return has the CAUSE
+//             block           (every Shoot reports and then blocks until the gun's context is done: the instances never
+//                              finish on their own, so the run context stays live until the engine reacts to a fault)
+//   ek      : plain (default) | dl | cn  (optional token; dl: every error the mocks of this pool return has the CAUSE
 //             context.DeadlineExceeded - the component's own deadline, wrapped with pkg/errors - which is a component
-//             failure and never "the error of the engine's context")
+//             failure and never "the error of the engine's context"; cn: the cause is context.Canceled of a context of
+//             the component's own - a component failure as long as the engine's context is live, which the generator
+//             guarantees by using it only together with slow:block and faults that do not end the instances)
 //   prov/agg ret additionally: ctxw = the context's error wrapped with pkg/errors (still the context's error)
 // output : res=<cls> canc=<0|1> lat=<fast|mid|slow|-> wait=<ok|hang> leak=<n> eng=<pool results Engine.Run consumed>
 //          engc=<0|1> sup=<pool results that were suppressed>
@@ -155,7 +159,7 @@ func parsePool(s string) (poolSpec, error) {
 		case "ek":
 			switch v {
 			case "plain", "-":
-			case "dl":
+			case "dl", "cn":
 				ps.ek = v
 			default:
 				return ps, fmt.Errorf("bad ek %q", v)
@@ -317,6 +321,9 @@ func (p *poolRt) verr(comp string) error {
 		// context of the engine (those are only ever cancelled)
 		return pkgerrors.WithMessage(pkgerrors.WithStack(context.DeadlineExceeded), fmt.Sprintf("verr.%s.p%d", comp, p.idx))
 	}
+	if p.spec.ek == "cn" {
+		return pkgerrors.WithMessage(pkgerrors.WithStack(context.Canceled), fmt.Sprintf("verr.%s.p%d", comp, p.idx))
+	}
 	return fmt.Errorf("verr.%s.p%d", comp, p.idx)
 }
 
@@ -450,6 +457,12 @@ func (g *gunBase) Shoot(core.Ammo) {
 		panic(g.p.verr("panic").Error())
 	}
 	g.aggr.Report(struct{}{})
+	if g.p.spec.slow == "block" {
+		select {
+		case <-g.ctx.Done():
+		case <-time.After(runTimeout + waitTimeout):
+		}
+	}
 }
 
 func (g *gunBase) doClose() error { g.closes.Add(1); return nil }
@@ -1028,7 +1041,7 @@ func main() {
 		Workers: 1,
 		Timeout: 20 * time.Second,
 		Rule: "fault plans = (component x position x return kind) + gun/bind/warm-up/schedule-factory failures + shot panic + " +
-			"external cancel at each phase, over 1-2 pools, 0-3 instances, shared or per-instance schedule; every plan is " +
+			"external cancel at each phase, plain and own-deadline error causes, over 1-3 pools, 0-3 (and 60-80) instances, shared or per-instance schedule; every plan is " +
 			"repeated to sample the runtime's select orders; a case is non-trivial when a fault or a cancel is planned",
 	})
 }
